@@ -708,6 +708,13 @@ def check(P: Project, R: Report) -> None:
             return "setsid:" + subst_text(stmt.value, st)
         return None
 
+    # which exception reaches which arm is read off the `except` clauses; a handler that sorts the caught exception out
+    # itself (`except Exception as e: if isinstance(e, TimeoutError): …`) hides that from these rules: undecided, not a finding
+    for t_ in walk_local(send.node):
+        if isinstance(t_, ast.Try):
+            for h_ in t_.handlers:
+                if h_.name and any(isinstance(c_, ast.Call) and call_name(c_) == "isinstance" and c_.args and ast.unparse(c_.args[0]) == h_.name for b_ in h_.body for c_ in walk_local(b_)):
+                    raise AnalysisError(f"{send.module.rel}:{h_.lineno}: the handler dispatches on the class of the caught exception (isinstance) — which failure takes which arm is not readable by the terminal-accounting rule")
     an, out = run_paths(send.node, event_of=sev, stmt_event_of=stmt_ev, fallible_pred=fallible_except_contained(P, send), exc_after_events=True)
     an.parents = {**A.exception_parents(P), "asyncio.TimeoutError": "TimeoutError"}
     R.paths += len(out.ret) + len(out.normal) + len(out.exc)
